@@ -518,8 +518,13 @@ func RunProperty(id, tier string, seed uint64, replayPath string) int {
 			"violations":  unlisted,
 		}
 		data, _ := json.MarshalIndent(ev, "", " ")
-		os.MkdirAll(filepath.Join(vdir, "evidence"), 0o755)
-		os.WriteFile(filepath.Join(vdir, "evidence", id+".json"), data, 0o644)
+		evdir := filepath.Join(vdir, "evidence")
+		if d := os.Getenv("VERIF_EVIDENCE_DIR"); d != "" {
+			// development aid (runs against a scratch checkout): keep the real evidence untouched
+			evdir = d
+		}
+		os.MkdirAll(evdir, 0o755)
+		os.WriteFile(filepath.Join(evdir, id+".json"), data, 0o644)
 	}
 	verdict := "HELD"
 	if exit == 1 {
